@@ -51,6 +51,45 @@ def gen_ell(seed, shard, nlat, nuser):
             yield ev
 
 
+def gen_ellhist(seed, shard, n, nuser):
+    """History on ONE long-lived Earth object: set(ellipsoid) interleaved with queries (in a seeded order of the seven
+    methods, so that whatever one query leaves behind in the object is seen by the others and survives - or not - the next
+    set()).  The events are ordinary "ell" events carrying the parameters of the ellipsoid set LAST (the model's current
+    ellipsoid): every clause of VerdictEll must hold for the currently set ellipsoid whatever was set or asked before."""
+    from pymeeus.Earth import Earth
+    from pymeeus.Angle import Angle
+    rng = random.Random("ellhist/%s/%s" % (seed, shard))
+    pool = _ellipsoids(rng, nuser)
+    name, ell, (pa, pf, pom) = pool[0]
+    e = Earth(ell)
+    for i in range(n):
+        r = rng.random()
+        if r < 0.25:
+            name, ell, (pa, pf, pom) = rng.choice(pool)
+            if rng.random() < 0.2:
+                e = Earth(ell)
+            else:
+                e.set(ell)
+            if rng.random() < 0.5:
+                continue            # two set() in a row, or a set() straight after a set()
+        lat = rng.choice([-90.0, 90.0, 0.0, 45.0, -45.0, rng.uniform(-90, 90), rng.uniform(-90, 90)])
+        h = rng.choice([0.0, -500.0, 9000.0, rng.uniform(-500, 9000)])
+        arg = lat if i % 3 else Angle(lat)
+        ev = {"k": "ell", "ell": "hist:" + name, "latf": lat, "hf": h, "if": i, "a": fx(pa), "f": fx(pf), "om": fx(pom),
+              "lat": fx(lat), "h": fx(h), "sphi": fx(math.sin(math.radians(lat))), "cphi": fx(math.cos(math.radians(lat)))}
+        calls = [("rc", lambda: e.rho_cosphi(arg, h)), ("rs", lambda: e.rho_sinphi(arg, h)), ("rc0", lambda: e.rho_cosphi(arg, 0.0)),
+                 ("rs0", lambda: e.rho_sinphi(arg, 0.0)), ("rp", lambda: e.rp(arg)), ("rm", lambda: e.rm(arg)),
+                 ("vel", lambda: e.linear_velocity(arg))]
+        rng.shuffle(calls)
+        try:
+            for key, fn in calls:
+                ev[key] = fx(fn())
+            ev["oc"] = "ok"
+        except Exception as ex:
+            ev.update(rc=BAD, rs=BAD, rc0=BAD, rs0=BAD, rp=BAD, rm=BAD, vel=BAD, oc=_oc(ex))
+        yield ev
+
+
 def _hav(lon1, lat1, lon2, lat2):
     p1, p2 = math.radians(lat1), math.radians(lat2)
     dl = math.radians(lon2 - lon1)
